@@ -208,6 +208,8 @@ def make_replay(hooks, scenario):
                 v = -1
             if 0 <= v < len(hooks.names):
                 pts.append(hooks.names[v])
+        if not pts and scenario == 'dtor':
+            pts = ['after']        # the driver always raises one signal after the destructor has returned
         if not pts:
             return False, 'verifier trace delivers no signal at a named hook point', ''
 
